@@ -140,6 +140,10 @@ func genSessionOps(rng *rand.Rand, c *Case, timeout, ooo int64, keys []string, l
 
 func (c10) Gen(rng *rand.Rand, tier string, idx int) Case {
 	var c Case
+	if idx%12 == 10 {
+		// IDLETIMEOUT: idle and busy ticker updates between the rows (forced, natural, live timestamps)
+		return idleCase(rng, "session")
+	}
 	if idx%12 == 11 {
 		to := []int64{1000, 500}[rng.Intn(2)]
 		c.Cfg = [][]string{{"kind", "sqlsession"}, {"timeout", itoa(to)}, {"ooo", "0"}, {"late", "0"}, {"now", "0"}}
